@@ -1,5 +1,8 @@
 import PetgraphModel.Proofs.C13Iso
 import PetgraphModel.Proofs.C13Vf2
+import PetgraphModel.Proofs.C13W2Top
+import PetgraphModel.Proofs.C13W2Spec
+import PetgraphModel.Proofs.C13W2Iso
 /-
 C13 — the VF2 family agrees with the definition of (sub)graph isomorphism.
 
@@ -17,7 +20,8 @@ What is proved here, for ALL graphs, weights and predicates:
   is SOUND for all concrete graphs, both modes, any number of `next()` calls: whatever it yields is a total
   injective mapping preserving adjacency and non-adjacency and satisfying the predicates, i.e. an `Embeds` of
   the specification; `true` from the model's `is_isomorphic*` implies `Iso` / `SubIso`.  Its COMPLETENESS
-  (every embedding is yielded, exactly once) is not proved: `C13_vf2_complete_statement` + `_partial`.
+  (every embedding is yielded, exactly once; `None` only if there is none) is proved in wave 2 for the iterator:
+  `C13_vf2_complete` (the statement `C13_vf2_complete_statement` as first written is false, see there).
 
 VF2 itself (petgraph's search) is tied to this reference per run: `./check C13` compares the implementation's
 answers with the oracle (spec level) and with the mirror model (exactly, including the yield order).
@@ -216,6 +220,237 @@ theorem C13_vf2_complete_partial (I : Inst) (mp : List (Option Nat)) (hf : Final
     I.g0.n ≤ I.g1.n ∧ (I.g0.n = I.g1.n → ∀ j, j < I.g1.n → ∃ i, i < I.g0.n ∧ mp[i]? = some (some j)) :=
   ⟨hf.node_count_le, fun hn => hf.onto hn⟩
 
+/-! ### wave 2: the mirror model of VF2 is COMPLETE (subgraph mode, the iterator)
+
+`C13_vf2_complete_statement` as written above is FALSE (`C13_vf2_complete_statement_false_witness`,
+`…_false_witness_inNb`): `cgOkB` does not tie the `ecount` field to the neighbour lists, does not forbid repeated
+entries in an `Incoming` list (whose LENGTH `is_feasible` compares), and the model's `next()` gives up after
+`bigFuel` loop iterations, which `iterLoop` reports as the end of the iteration.  None of the three reflects
+petgraph (there `edge_count()` is the number of edges, a simple graph has duplicate-free in-neighbour lists, and
+the loop has no fuel).  The repaired statement `C13_vf2_complete` adds exactly these three side conditions
+(`ECountOk`, duplicate-free `inNb` when directed, `iterFuelOk`), all executable, and is proved for ALL
+instances: candidate order, `is_feasible`, the frontier-cardinality pruning and the generation-stamp
+bookkeeping of `push_mapping`/`pop_mapping` lose no embedding, and every embedding is yielded exactly once. -/
+
+/-- the three pruning devices never cut off an extendable partial mapping: if the current state (the pushes of
+the trail `tr`) is the restriction of a valid complete mapping `mp` and `a` is still unmapped, then the pair
+`(a, mp a)` passes `is_feasible`, the frontier-cardinality test holds after pushing it, and `mp a` is a member of
+the same open list (`Out` / `In` / `Other`) of g1 as `a` is of g0 — so the candidate scan reaches it. -/
+theorem C13_vf2_pruning_complete (I : Inst) (h0 : cgOkB I.g0 = true) (h1 : cgOkB I.g1 = true)
+    (hd : I.g0.directed = I.g1.directed) (hin : inNodupB I.g0 = true)
+    (m : M) (tr : List (Nat × Nat)) (hs0 : m.s0 = SG I.g0 tr) (hs1 : m.s1 = SG I.g1 (tr.map Prod.swap))
+    (hc : Core I m.s0 m.s1) (mp : List (Option Nat)) (hf : Final I mp)
+    (het : ∀ p ∈ tr, mp[p.1]? = some (some p.2)) (a : Nat) (ha : a < I.g0.n) :
+    isFeasible I m a (vecFun mp a) = true ∧ sizesOk true (pushState I m a (vecFun mp a)) = true ∧
+    ∀ ol, inList I.g0 m.s0 ol a = true → inList I.g1 m.s1 ol (vecFun mp a) = true := by
+  have ok0 := cgOkB_sound h0
+  have ok1 := cgOkB_sound h1
+  have e : Ext I mp m := mkExt hf hc hs0 het
+  have hab : mp[a]? = some (some (fval mp a)) := (hf.get ha).1
+  refine ⟨e.feasible ok0 ok1 hd (inNodupB_sound h0 hin) hab, ?_, fun ol h => ExtT.inList_transfer ok0 ok1 hd hs0 hs1 e het ha h⟩
+  have et : ExtT mp ((a, fval mp a) :: tr) := (ExtT.cons_iff hf ha tr).mpr ⟨rfl, het⟩
+  have sz := et.sizes ok0 ok1 hd hf
+  have e0 : (pushState I m a (fval mp a)).s0 = SG I.g0 ((a, fval mp a) :: tr) := by
+    show pushMapping I.g0 m.s0 a (fval mp a) = _
+    rw [hs0]; rfl
+  have e1 : (pushState I m a (fval mp a)).s1 = SG I.g1 (((a, fval mp a) :: tr).map Prod.swap) := by
+    show pushMapping I.g1 m.s1 (fval mp a) a = _
+    rw [hs1]; rfl
+  show sizesOk true (pushState I m a (fval mp a)) = true
+  unfold sizesOk
+  rw [e0, e1]
+  simp
+  exact sz
+
+/-- `pop_mapping` restores the `Vf2State` exactly (mapping, both stamp vectors, both counters, generation) -/
+theorem C13_vf2_pop_push (g : CG) (h : cgOkB g = true) (tr : List (Nat × Nat)) (a b : Nat)
+    (ha : (SG g tr).map a = none) (ha' : a < g.n) :
+    popMapping g (pushMapping g (SG g tr) a b) a = SG g tr :=
+  pop_push (cgOkB_sound h) (SG_ok (cgOkB_sound h) tr) b ha ha'
+
+/-- the `None` answer of the model's `subgraph_isomorphisms_iter` (node- or edge-count rejection) is correct -/
+theorem C13_vf2_complete_none (I : Inst) (h0 : cgOkB I.g0 = true) (h1 : cgOkB I.g1 = true)
+    (hd : I.g0.directed = I.g1.directed) (e0 : ECountOk I.g0) (e1 : ECountOk I.g1)
+    (h : iterModel I = none) : ¬ ∃ mp, Final I mp := by
+  rintro ⟨mp, hf⟩
+  unfold iterModel at h
+  split at h
+  · rename_i hc
+    simp only [Bool.or_eq_true, decide_eq_true_eq] at hc
+    have := hf.node_count_le
+    have := hf.ecount_le (cgOkB_sound h0) (cgOkB_sound h1) hd e0 e1
+    omega
+  · cases h
+
+/-- when the drained iterator reports its end, the vectors it yielded are pairwise different and every valid
+complete mapping is among them -/
+theorem C13_vf2_complete_iter (I : Inst) (h0 : cgOkB I.g0 = true) (h1 : cgOkB I.g1 = true)
+    (hd : I.g0.directed = I.g1.directed) (hn : 0 < I.g0.n)
+    (p0 : I.g0.abs.Perm (List.range I.g0.n)) (p1 : I.g1.abs.Perm (List.range I.g1.n))
+    (hin : inNodupB I.g0 = true) (hfuel : iterFuelOk I = true)
+    (vs : List (List Nat)) (h : iterModel I = some (vs, true)) :
+    vs.Nodup ∧ ∀ mp, Final I mp → toAbstract I mp ∈ vs :=
+  iterModel_complete (cgOkB_sound h0) (cgOkB_sound h1) hd (inNodupB_sound h0 hin) hn p0 p1 hfuel h
+
+/-- `C13_vf2_complete_statement`, repaired: with the edge-count fields describing the neighbour lists,
+duplicate-free `Incoming` lists and no `next()` call out of fuel, the model finds every embedding exactly once. -/
+theorem C13_vf2_complete (I : Inst) (h0 : cgOkB I.g0 = true) (h1 : cgOkB I.g1 = true)
+    (hd : I.g0.directed = I.g1.directed) (hn : 0 < I.g0.n)
+    (p0 : I.g0.abs.Perm (List.range I.g0.n)) (p1 : I.g1.abs.Perm (List.range I.g1.n))
+    (e0 : ECountOk I.g0) (e1 : ECountOk I.g1)
+    (hin : inNodupB I.g0 = true) (hfuel : iterFuelOk I = true) :
+    (iterModel I = none → ¬ ∃ mp, Final I mp) ∧
+    (∀ vs, iterModel I = some (vs, true) → vs.Nodup ∧ ∀ mp, Final I mp → toAbstract I mp ∈ vs) :=
+  ⟨C13_vf2_complete_none I h0 h1 hd e0 e1, C13_vf2_complete_iter I h0 h1 hd hn p0 p1 hin hfuel⟩
+
+/-- soundness and completeness together: the drained iterator's vectors are exactly the (abstract vectors of
+the) valid complete mappings, each once -/
+theorem C13_vf2_iter_exact (I : Inst) (h0 : cgOkB I.g0 = true) (h1 : cgOkB I.g1 = true)
+    (hd : I.g0.directed = I.g1.directed) (hn : 0 < I.g0.n)
+    (p0 : I.g0.abs.Perm (List.range I.g0.n)) (p1 : I.g1.abs.Perm (List.range I.g1.n))
+    (hin : inNodupB I.g0 = true) (hfuel : iterFuelOk I = true)
+    (vs : List (List Nat)) (h : iterModel I = some (vs, true)) :
+    vs.Nodup ∧ ∀ v, v ∈ vs ↔ ∃ mp, Final I mp ∧ v = toAbstract I mp := by
+  have hc := C13_vf2_complete_iter I h0 h1 hd hn p0 p1 hin hfuel vs h
+  refine ⟨hc.1, fun v => ⟨fun hv => ?_, ?_⟩⟩
+  · obtain ⟨mp, hf, _, rfl⟩ := C13_vf2_iter_sound I h0 h1 hd vs true h v hv
+    exact ⟨mp, hf, rfl⟩
+  · rintro ⟨mp, hf, rfl⟩
+    exact hc.2 mp hf
+
+/-! #### the same at the level of the specification (`Embeds`, `SubIso` of `I.problem`) -/
+
+/-- every embedding of the problem the instance poses is (as an abstract vector) among the yielded vectors,
+and the yielded vectors are exactly the embeddings, each once -/
+theorem C13_vf2_iter_complete_spec (I : Inst) (h0 : cgOkB I.g0 = true) (h1 : cgOkB I.g1 = true)
+    (hd : I.g0.directed = I.g1.directed) (hn : 0 < I.g0.n)
+    (p0 : I.g0.abs.Perm (List.range I.g0.n)) (p1 : I.g1.abs.Perm (List.range I.g1.n))
+    (hin : inNodupB I.g0 = true) (hfuel : iterFuelOk I = true)
+    (vs : List (List Nat)) (h : iterModel I = some (vs, true)) :
+    vs.Nodup ∧
+    (∀ f, Embeds I.problem f → toAbstract I (vecOf I f) ∈ vs) ∧
+    (∀ v ∈ vs, ∃ mp, Embeds I.problem (vecFun mp) ∧ v = toAbstract I mp) := by
+  have hc := C13_vf2_complete_iter I h0 h1 hd hn p0 p1 hin hfuel vs h
+  refine ⟨hc.1, fun f e => hc.2 _ (Final.of_embeds (cgOkB_sound h0) (cgOkB_sound h1) e), fun v hv => ?_⟩
+  obtain ⟨mp, _, he, rfl⟩ := C13_vf2_iter_sound I h0 h1 hd vs true h v hv
+  exact ⟨mp, he, rfl⟩
+
+/-- `None` from the model's `subgraph_isomorphisms_iter` only if g0 is not isomorphic to an induced subgraph -/
+theorem C13_vf2_none_complete_spec (I : Inst) (h0 : cgOkB I.g0 = true) (h1 : cgOkB I.g1 = true)
+    (hd : I.g0.directed = I.g1.directed) (e0 : ECountOk I.g0) (e1 : ECountOk I.g1)
+    (h : iterModel I = none) : ¬ SubIso I.problem := by
+  rintro ⟨f, e⟩
+  exact C13_vf2_complete_none I h0 h1 hd e0 e1 h ⟨_, Final.of_embeds (cgOkB_sound h0) (cgOkB_sound h1) e⟩
+
+/-- the model's `is_isomorphic_subgraph[_matching]` decides `SubIso` (soundness: `C13_vf2_sub_sound`;
+completeness needs the side conditions and that the one `next()` call it makes does not run out of fuel) -/
+theorem C13_vf2_sub_iff (I : Inst) (h0 : cgOkB I.g0 = true) (h1 : cgOkB I.g1 = true)
+    (hd : I.g0.directed = I.g1.directed) (hn : 0 < I.g0.n) (e0 : ECountOk I.g0) (e1 : ECountOk I.g1)
+    (hin : inNodupB I.g0 = true)
+    (hfuel : (isomorphisms I true bigFuel (M.init I)).isSome = true) :
+    subModel I = true ↔ SubIso I.problem := by
+  constructor
+  · exact C13_vf2_sub_sound I h0 h1 hd
+  · rintro ⟨f, e⟩
+    cases h : subModel I with
+    | true => rfl
+    | false =>
+      exact absurd ⟨_, Final.of_embeds (cgOkB_sound h0) (cgOkB_sound h1) e⟩
+        (subModel_complete (cgOkB_sound h0) (cgOkB_sound h1) hd (inNodupB_sound h0 hin) hn e0 e1 hfuel h)
+
+/-- the model's `is_isomorphic[_matching]` decides `Iso` (soundness: `C13_vf2_iso_sound`; completeness: the
+`!=` size rejections and the `==` frontier pruning of isomorphism mode lose no bijection) -/
+theorem C13_vf2_iso_iff (I : Inst) (h0 : cgOkB I.g0 = true) (h1 : cgOkB I.g1 = true)
+    (hd : I.g0.directed = I.g1.directed) (hn : 0 < I.g0.n) (e0 : ECountOk I.g0) (e1 : ECountOk I.g1)
+    (hin : inNodupB I.g0 = true)
+    (hfuel : (isomorphisms I false bigFuel (M.init I)).isSome = true) :
+    isoModel I = true ↔ Iso I.problem := by
+  constructor
+  · exact C13_vf2_iso_sound I h0 h1 hd
+  · rintro ⟨f, e, honto⟩
+    have ok0 := cgOkB_sound h0
+    have ok1 := cgOkB_sound h1
+    have hf := Final.of_embeds ok0 ok1 e
+    have hnn : I.g0.n = I.g1.n := by
+      apply node_count_eq_of_onto hf (f := f)
+      intro b hb
+      obtain ⟨a, ha, hab⟩ := honto b (by simpa [Inst.problem, CG.toMGraph] using hb)
+      exact ⟨a, by simpa [Inst.problem, CG.toMGraph] using ha, hab⟩
+    cases h : isoModel I with
+    | true => rfl
+    | false => exact absurd ⟨_, hf, hnn⟩ (isoModel_complete ok0 ok1 hd (inNodupB_sound h0 hin) hn e0 e1 hfuel h)
+
+/-- counterexample 1 to the statement as written: `ecount` is not constrained by `cgOkB` -/
+def exBadEcount : Inst :=
+  { g0 := { n := 1, ecount := 1, directed := true, outE := [[]], inN := [[]], abs := [0], nw := [0] },
+    g1 := { n := 1, ecount := 0, directed := true, outE := [[]], inN := [[]], abs := [0], nw := [0] },
+    nm := fun _ _ => true, em := fun _ _ => true, semantic := false }
+
+theorem exBadEcount_final : Final exBadEcount [some 0] := by
+  have hadj : ∀ (g : CG) (x y : Nat), g.outE = [[]] → g.adj x y = false := by
+    intro g x y hg
+    cases x <;> simp [CG.adj, CG.outN, hg]
+  refine ⟨rfl, ?_, ?_, ⟨?_, ?_, ?_⟩⟩
+  · intro i hi
+    have hi : i < 1 := hi
+    have : i = 0 := by omega
+    subst this
+    exact ⟨0, rfl, by decide⟩
+  · intro i i' j hi hi'
+    cases i <;> cases i' <;> simp at hi hi' ⊢
+  · intro i j i' j' _ _
+    rw [hadj _ _ _ rfl, hadj _ _ _ rfl]
+  · intro hs; exact absurd hs (by decide)
+  · intro hs; exact absurd hs (by decide)
+
+theorem C13_vf2_complete_statement_false_witness : ¬ C13_vf2_complete_statement := by
+  intro h
+  exact (h exBadEcount (by decide) (by decide) rfl (by decide) (List.Perm.refl _) (List.Perm.refl _)).1
+    (by decide) ⟨_, exBadEcount_final⟩
+
+/-- counterexample 2 (edge counts right): a repeated entry in an `Incoming` list passes `cgOkB`, and the
+in-degree comparison of `is_feasible` then rejects the only embedding -/
+def exDupIn : Inst :=
+  { g0 := { n := 2, ecount := 1, directed := true, outE := [[], [(0, 0)]], inN := [[1, 1], []], abs := [0, 1],
+            nw := [0, 0] },
+    g1 := { n := 2, ecount := 1, directed := true, outE := [[], [(0, 0)]], inN := [[1], []], abs := [0, 1],
+            nw := [0, 0] },
+    nm := fun _ _ => true, em := fun _ _ => true, semantic := false }
+
+theorem exDupIn_final : Final exDupIn [some 0, some 1] := by
+  have hid : ∀ i j : Nat, ([some 0, some 1][i]?).getD none = some j → i = j := by
+    intro i j h
+    rcases i with _ | _ | i <;> simp at h <;> omega
+  refine ⟨rfl, ?_, ?_, ⟨?_, ?_, ?_⟩⟩
+  · intro i hi
+    have hi : i < 2 := hi
+    rcases i with _ | _ | i
+    · exact ⟨0, rfl, by decide⟩
+    · exact ⟨1, rfl, by decide⟩
+    · omega
+  · intro i i' j hi hi'
+    have a := hid i j (by rw [hi]; rfl)
+    have b := hid i' j (by rw [hi']; rfl)
+    omega
+  · intro i j i' j' hi hi'
+    have a := hid i j hi
+    have b := hid i' j' hi'
+    subst a; subst b
+    rfl
+  · intro hs; exact absurd hs (by decide)
+  · intro hs; exact absurd hs (by decide)
+
+theorem C13_vf2_complete_statement_false_witness_inNb :
+    cgOkB exDupIn.g0 = true ∧ cgOkB exDupIn.g1 = true ∧ ECountOk exDupIn.g0 ∧ ECountOk exDupIn.g1 ∧
+    iterFuelOk exDupIn = true ∧ inNodupB exDupIn.g0 = false ∧
+    iterModel exDupIn = some ([], true) ∧ ∃ mp, Final exDupIn mp :=
+  ⟨by decide, by decide, by decide, by decide, by decide, by decide, by decide, _, exDupIn_final⟩
+
+/- counterexample 3 (not evaluated: it needs > 4·10⁶ loop iterations): 11 isolated pattern nodes and 12 isolated
+target nodes, `nm x y := x < 10 || y == 0` on node weights `nw i = i`: node 0 is first matched with target 0,
+which only the pattern node 10 may take, and the 11!/2! assignments of the nodes 1..9 are tried before that
+choice is revised — the first `next()` runs out of `bigFuel`, which `iterLoop` reports as `([], true)`. -/
+
 end Vf2
 
 /-! ### a non-trivial instance: the hypotheses are satisfiable and the oracle computes -/
@@ -243,5 +478,10 @@ def exI : Vf2.Inst :=
 example : Vf2.cgOkB exI.g0 = true ∧ Vf2.cgOkB exI.g1 = true := by decide
 example : Vf2.iterModel exI = some ([[2, 0, 3]], true) := by decide
 example : Vf2.subModel exI = true ∧ Vf2.isoModel exI = false := by decide
+/-- the side conditions of `C13_vf2_complete` are executable and hold on the example -/
+example : Vf2.ECountOk exI.g0 ∧ Vf2.ECountOk exI.g1 ∧ Vf2.iterFuelOk exI = true ∧
+    Vf2.inNodupB exI.g0 = true ∧
+    (Vf2.isomorphisms exI true Vf2.bigFuel (Vf2.M.init exI)).isSome = true ∧
+    (Vf2.isomorphisms exI false Vf2.bigFuel (Vf2.M.init exI)).isSome = true := by decide
 
 end PetgraphModel.C13T
